@@ -19,6 +19,9 @@ import core
 
 
 # --------------------------------------------------------------------------- shared helpers
+# validation JVMs live for a few seconds: C1-only compilation starts faster and does not fight for cores
+FAST_JVM = {"JAVA_TOOL_OPTIONS": "-XX:TieredStopAtLevel=1"}
+
 def run_sharded(binary, sub, cases_path, obs_path, procs=4):
     """Run `binary sub <cases> <obs>` on `procs` slices of the case file in parallel; concatenate in order."""
     with open(cases_path) as f:
@@ -56,6 +59,22 @@ def run_sharded(binary, sub, cases_path, obs_path, procs=4):
     return len(lines)
 
 
+class Phase:
+    """with Phase(chk, "name"): ...  records the wall time of a phase in the evidence (measured, informational)."""
+
+    def __init__(self, chk, name):
+        self.chk, self.name = chk, name
+
+    def __enter__(self):
+        import time
+        self.t = time.time()
+
+    def __exit__(self, *a):
+        import time
+        self.chk.cov.setdefault("phase_wall_s", {})[self.name] = round(time.time() - self.t, 1)
+        return False
+
+
 def new_check(pid, tier):
     """core.Check plus the entries of known_findings.d/<pid>.json (the assembled known_findings.json may lag behind)."""
     chk = core.Check(pid, "model_checking", tier)
@@ -68,17 +87,55 @@ def new_check(pid, tier):
     return chk
 
 
+class Cases:
+    """Case lookup by id without keeping the parsed file in memory (ids are the 0-based line numbers)."""
+
+    def __init__(self, path):
+        self.path = path
+        self.offsets = None
+
+    def get(self, cid, default=None):
+        if cid is None:
+            return default
+        if self.offsets is None:
+            self.offsets = []
+            pos = 0
+            with open(self.path, "rb") as f:
+                for line in f:
+                    self.offsets.append(pos)
+                    pos += len(line)
+        if not (0 <= cid < len(self.offsets)):
+            return default
+        with open(self.path, "rb") as f:
+            f.seek(self.offsets[cid])
+            c = json.loads(f.readline())
+        return c if c.get("id") == cid else default
+
+
 def load_cases(path):
-    d = {}
-    with open(path) as f:
-        for line in f:
-            if line.strip():
-                c = json.loads(line)
-                d[c["id"]] = c
-    return d
+    return Cases(path)
 
 
-def model_check(chk, module, cfg, actions, workers=8, timeout=1500):
+def stats(lines, nontrivial, keyf, counters, sample_at=(0, 0.5, 0.5, 1.0)):
+    """One pass over the observation lines: distinct non-trivial count, named counters, a few samples."""
+    import hashlib
+    n = len(lines)
+    want = sorted({min(n - 1, int(f * (n - 1)) + (1 if i == 2 else 0)) for i, f in enumerate(sample_at)}) if n else []
+    seen = set()
+    cnt = {k: 0 for k in counters}
+    samples = []
+    for i, x in enumerate(lines):
+        o = json.loads(x)
+        if nontrivial(o):
+            seen.add(hashlib.sha1(keyf(o).encode()).digest())
+        for k, f in counters.items():
+            cnt[k] += f(o)
+        if i in want:
+            samples.append(o)
+    return len(seen), cnt, samples
+
+
+def model_check(chk, module, cfg, actions, workers=4, timeout=1500):
     """Exhaustive TLC run; the run is void (tool error) if an action was never taken or TLC found a violation."""
     r = core.tlc(module, cfg, coverage=True, workers=workers, timeout=timeout)
     if r.violation:
@@ -132,7 +189,7 @@ def nontrivial(o):
 
 
 def validate(chk, pid, obs_path, cases, shards):
-    out, lines, rs = core.tlc_validate("trace/OwnerTrackTrace.tla", "trace/OwnerTrackTrace.cfg", obs_path, shards=shards, timeout=3000,
+    out, lines, rs = core.tlc_validate("trace/OwnerTrackTrace.tla", "trace/OwnerTrackTrace.cfg", obs_path, shards=shards, timeout=3000, env=FAST_JVM,
                                        tags=("MISMATCH", "DRIFT"))
     classify(chk, pid, out["MISMATCH"], lines, cases, key_owner)
     if out["DRIFT"]:
@@ -149,32 +206,39 @@ def run(pid, tier, replay):
     if replay:
         return do_replay(chk, pid, binary, replay, "c32", validate)
     quick = chk.quick
-    model_check(chk, "mc/MC_OwnerTrack.tla", "mc/MC_OwnerTrack.cfg" if quick else "mc/MC_OwnerTrack_thorough.cfg", ACTIONS)
-    expect_violation(chk, "mc/MC_OwnerTrack.tla", "mc/MC_OwnerTrack_dev.cfg",
-                     ["OnlyOwnersSignals", "AllOwnersSignals", "TrackedIsOwner"])
+    with Phase(chk, "model_check"):
+        model_check(chk, "mc/MC_OwnerTrack.tla", "mc/MC_OwnerTrack.cfg" if quick else "mc/MC_OwnerTrack_thorough.cfg", ACTIONS,
+                    workers=4 if quick else 8)
+        expect_violation(chk, "mc/MC_OwnerTrack.tla", "mc/MC_OwnerTrack_dev.cfg",
+                         ["OnlyOwnersSignals", "AllOwnersSignals", "TrackedIsOwner"], workers=2)
     cases_path = chk.path("cases.ndjson")
-    g, n = core.tlc_generate("gen/Gen_OwnerTrack.tla",
-                             "gen/Gen_OwnerTrack_quick.cfg" if quick else "gen/Gen_OwnerTrack_thorough.cfg",
-                             cases_path, timeout=3000)
+    with Phase(chk, "generate"):
+        g, n = core.tlc_generate("gen/Gen_OwnerTrack.tla",
+                                 "gen/Gen_OwnerTrack_quick.cfg" if quick else "gen/Gen_OwnerTrack_thorough.cfg",
+                                 cases_path, timeout=3000, workers=4)
     chk.add_tlc(g)
     obs_path = chk.path("obs.ndjson")
-    run_sharded(binary, "c32", cases_path, obs_path, procs=4 if quick else 8)
+    with Phase(chk, "replay"):
+        run_sharded(binary, "c32", cases_path, obs_path, procs=4 if quick else 8)
     cases = load_cases(cases_path)
-    lines = validate(chk, pid, obs_path, cases, shards=8 if quick else 14)
-    objs = [json.loads(x) for x in lines]
+    with Phase(chk, "validate"):
+        lines = validate(chk, pid, obs_path, cases, shards=6 if quick else 14)
     chk.add("enumerated_cases", n)
     chk.cov["exhaustive"] = True
     chk.add("traces_validated_against_impl", len(lines))
     chk.cov["evaluations"] = len(lines)
-    chk.cov["distinct_nontrivial"] = core.distinct_count(
-        [o for o in objs if nontrivial(o)], lambda o: json.dumps([o.get("mode"), o.get("init"), o.get("evs")]))
+    dn, cnt, samples = stats(
+        lines, nontrivial, lambda o: json.dumps([o.get("mode"), o.get("init"), o.get("evs")]),
+        {"yielded_signals": lambda o: len(o.get("yields", [])),
+         "histories_with_forged_claim": lambda o: int(any(e["k"] == "forge" for e in o.get("evs", [])))})
+    chk.cov["distinct_nontrivial"] = dn
+    chk.cov.update(cnt)
     chk.cov["rule"] = ("cases = every consistent bus history of <= L messages (L=4 quick, 5 thorough) with exactly one GetNameOwner reply and a "
-                       "later signal, x stream mode (receive_signal / receive_all_signals) x schedule (client run after every message, or "
-                       "with the messages around the lookup reply queued together); distinct by (mode, initial owner, received history "
-                       "with quiescence points); non-trivial = contains a genuine, forged or other-name NameOwnerChanged")
-    chk.cov["yielded_signals"] = sum(len(o.get("yields", [])) for o in objs)
-    chk.cov["histories_with_forged_claim"] = sum(1 for o in objs if any(e["k"] == "forge" for e in o.get("evs", [])))
-    for o in objs[:1] + objs[len(objs) // 2:len(objs) // 2 + 2] + objs[-1:]:
+                       "later signal, x stream mode (receive_signal always; receive_all_signals for the short histories and those with a signal "
+                       "of another member) x schedule (client run after every message, or with the messages around the lookup reply queued "
+                       "together); distinct by (mode, initial owner, received history with quiescence points); non-trivial = contains a "
+                       "genuine, forged or other-name NameOwnerChanged")
+    for o in samples:
         chk.sample({k: o.get(k) for k in ("mode", "init", "evs", "yields")})
     chk.assumptions += [
         "the fake bus (harness/proxy/src/fakebus.rs) delivers bytes in the scripted order; the bus is consistent (lookup reply = owner at that point)",
